@@ -98,17 +98,18 @@ Put(x, p, n) == IF p = <<>> THEN n
 SmallNum(x) == IF x.t = "int" THEN "v" \in DOMAIN x ELSE "q" \in DOMAIN x
 \* x int, y float
 \* a float with q is at most 2^30 in magnitude, an int without v is beyond 2^30: those two cannot be equal
-\* (an unsigned value above MaxInt64 is read by ojg as the int64 with the same bits: against a float it is open, like "wrap" below)
-NumCross(x, y) == IF "wrap" \in DOMAIN x THEN "may" ELSE IF SmallNum(y)
+\* An unsigned integer above MaxInt64 carries two facts from the harness: f64 = the text of float64(u) and f64exact = that
+\* float denotes u exactly.  Against a float it is compared BY VALUE: the same value -> equal (must not be reported), the
+\* float that u rounds to without being equal -> open (differs by rounding only), any other float -> must be reported.
+NumCross(x, y) == IF "f64" \in DOMAIN x THEN (IF "s" \in DOMAIN y /\ y.s = x.f64 THEN (IF x.f64exact THEN "eq" ELSE "may") ELSE "must")
+                  ELSE IF SmallNum(y)
                   THEN (IF SmallNum(x) /\ y.q[2] = 0 /\ y.q[1] = x.v THEN "may" ELSE "must")
                   ELSE "may"                                                      \* A1
 
 LeafCls(x, y) ==
    IF x.t = "absent" \/ y.t = "absent"
    THEN (IF {x.t, y.t} \subseteq {"absent", "null"} THEN "eq" ELSE "must")      \* null versus absent member
-   \* an unsigned value above MaxInt64 against the int64 with the same bit pattern ("wrap", a fact the harness supplies): ojg
-   \* converts every integer to int64, nothing says what that means beyond its range: open.  Everything else is exact.
-   ELSE IF x.t = "int" /\ y.t = "int" /\ x # y /\ (("wrap" \in DOMAIN x /\ x.wrap = y) \/ ("wrap" \in DOMAIN y /\ y.wrap = x)) THEN "may"
+   \* integers are compared exactly (decimal records); an unsigned value above MaxInt64 is NOT the int64 with the same bits
    ELSE IF x.t = y.t THEN (IF x = y THEN "eq" ELSE "must")
    ELSE IF x.t = "int" /\ y.t = "flt" THEN NumCross(x, y)
    ELSE IF x.t = "flt" /\ y.t = "int" THEN NumCross(y, x)
@@ -217,17 +218,22 @@ IgnRel(L, igs) == IF igs = {} THEN "no-ignore"
 MissLoc(T, x, y, igs) ==
    LET u == AtOpt(x, T.p)
        v == AtOpt(y, T.p)
-       cls == IF T.lo >= 0 THEN "tail" ELSE IF u.t = "absent" \/ v.t = "absent" THEN "member"
-              ELSE IF u.t # v.t THEN "kind" ELSE "value" IN
-   <<cls, IgnRel(T.p, igs)>>
+       \* an unsigned leaf above MaxInt64 is named with its side (x is the first argument) and the kind of the other leaf
+       cls == IF T.lo >= 0 THEN <<"tail">> ELSE IF u.t = "absent" \/ v.t = "absent" THEN <<"member">>
+              ELSE IF "f64" \in DOMAIN u THEN <<"unsigned-above-int64-left", v.t>>
+              ELSE IF "f64" \in DOMAIN v THEN <<"unsigned-above-int64-right", u.t>>
+              ELSE IF u.t # v.t THEN <<"kind">> ELSE <<"value">> IN
+   cls \o <<IgnRel(T.p, igs)>>
 SpurLoc(P, x, y, igs) ==
    LET u == AtOpt(x, P)
        v == AtOpt(y, P)
        cls == IF u.t = "absent" /\ v.t = "absent"
               THEN (IF Len(P) > 0 /\ Last(P).t = "i" /\ AtOpt(x, Front(P)).t = "arr" /\ AtOpt(y, Front(P)).t = "arr"
-                    THEN "index-beyond-both" ELSE "nonexistent")
-              ELSE "equal-location" IN
-   <<cls, IF igs = {} THEN "no-ignore" ELSE "with-ignore">>
+                    THEN <<"index-beyond-both">> ELSE <<"nonexistent">>)
+              ELSE IF "f64" \in DOMAIN u THEN <<"unsigned-above-int64-left", v.t>>
+              ELSE IF "f64" \in DOMAIN v THEN <<"unsigned-above-int64-right", u.t>>
+              ELSE <<"equal-location">> IN
+   cls \o <<IF igs = {} THEN "no-ignore" ELSE "with-ignore">>
 
 SeqSet(s) == {s[j] : j \in 1..Len(s)}
 \* o = [d |-> <<paths>>, c |-> <<>> or <<path>>, pan |-> BOOLEAN]: what Diff and Compare returned for (x, y, igs)
@@ -250,11 +256,15 @@ JudgeObs(x, y, igs, o, tr) ==
                loc |-> <<IF o.c = <<>> THEN "nil-but-diff-nonempty" ELSE IF D = {} THEN "path-but-diff-empty" ELSE "path-not-in-diff",
                          IF igs = {} THEN "no-ignore" ELSE "with-ignore">>]>>
        ELSE <<>>)
+RECURSIVE HasU64(_)
+HasU64(z) == IF z.t \in {"arr", "obj"} THEN \E j \in 1..Len(z.v) : HasU64(z.v[j]) ELSE "f64" \in DOMAIN z
 \* got: what Match(f, t) returned
 JudgeMatch(f, t, got) ==
    LET m == Match3(f, t) IN
    IF (m = "T" /\ ~got) \/ (m = "F" /\ got)
-   THEN <<[kind |-> "match-wrong", loc |-> <<IF got THEN "says-true" ELSE "says-false", f.t, t.t>>]>> ELSE <<>>
+   THEN <<[kind |-> "match-wrong", loc |-> <<IF got THEN "says-true" ELSE "says-false", f.t, t.t>>
+                                          \o (IF HasU64(f) THEN <<"unsigned-above-int64-in-fingerprint">>
+                                               ELSE IF HasU64(t) THEN <<"unsigned-above-int64-in-target">> ELSE <<>>)]>> ELSE <<>>
 
 -----------------------------------------------------------------------------
 (* a reference Diff (design check only): shows that the relations are satisfiable, and a  *)
